@@ -433,3 +433,170 @@ Example create_fixed_same_schedule :
   let sc := {| sw := {| pending := [FOk]; dflt_err := true |}; sf := quiet; ss := quiet; sr := quiet |} in
   fst (run_writer (SBuf 8192) (encode_prog whole 0 [1; 2] [[3]; [4]] [7; 8]) {| wdev := {| data := []; pos := 0 |}; wsched := sc |}) = Err EIo.
 Proof. vm_compute. reflexivity. Qed.
+
+(* ---------------------------------------------------------------- reading *)
+(* a device that says Ok(0) before the end of the data claims end of file: excluded from the fault space *)
+Definition honest (s : stream) : Prop := Forall (fun f => f <> FShort 0) (pending s).
+
+Lemma honest_next s f s' : next s = (f, s') -> honest s -> honest s' /\ f <> FShort 0.
+Proof.
+  unfold next, honest. destruct s as [[|g r] d]; cbn; intros H Hh; inversion H; subst; cbn.
+  - split; auto. destruct d; discriminate.
+  - inversion Hh; subst. auto.
+Qed.
+
+Lemma firstn_skipn_len {A} k (R : list A) : firstn k R ++ skipn (length (firstn k R)) R = R.
+Proof.
+  rewrite firstn_length. destruct (Nat.le_ge_cases k (length R)).
+  - rewrite Nat.min_l by lia. apply firstn_skipn.
+  - rewrite Nat.min_r by lia. rewrite firstn_all2, skipn_all by lia. apply app_nil_r.
+Qed.
+
+Lemma firstn_firstn' {A} a b (l : list A) : exists k, firstn a (firstn b l) = firstn k l.
+Proof. exists (Nat.min a b). apply firstn_firstn. Qed.
+
+Lemma dev_read_spec cap w :
+  match dev_read cap w with
+  | (IOk bs, w') =>
+      data (wdev w') = data (wdev w) /\
+      bs ++ skipn (pos (wdev w')) (data (wdev w')) = skipn (pos (wdev w)) (data (wdev w)) /\
+      (honest (sr (wsched w)) -> (0 < cap)%nat -> bs = [] -> skipn (pos (wdev w)) (data (wdev w)) = []) /\
+      (honest (sr (wsched w)) -> honest (sr (wsched w'))) /\
+      length (pending (sr (wsched w'))) = pred (length (pending (sr (wsched w)))) /\
+      (length (pending (sr (wsched w))) = 0%nat -> (0 < cap)%nat -> skipn (pos (wdev w)) (data (wdev w)) <> [] -> bs <> [])
+  | (IErr i, w') => wdev w' = wdev w /\ (honest (sr (wsched w)) -> honest (sr (wsched w'))) /\
+                    length (pending (sr (wsched w'))) = pred (length (pending (sr (wsched w)))) /\
+                    (i = true -> (0 < length (pending (sr (wsched w))))%nat)
+  end.
+Proof.
+  unfold dev_read. pose proof (next_cases (sr (wsched w))) as NC.
+  destruct (next (sr (wsched w))) as [f s'] eqn:E. destruct NC as (L & D & _ & _).
+  set (R := skipn (pos (wdev w)) (data (wdev w))).
+  assert (Hh : honest (sr (wsched w)) -> honest s' /\ f <> FShort 0) by (apply honest_next; exact E).
+  destruct f; cbn [wdev wsched data pos set_sr sr].
+  - repeat split; auto.
+    + rewrite <- skipn_skipn'. apply firstn_skipn_len.
+    + intros _ C Z. destruct R as [|x t]; [reflexivity|]. destruct cap; [lia|]. discriminate.
+    + intros H. now apply Hh.
+    + intros _ C NZ Z. destruct R as [|x t]; [congruence|]. destruct cap; [lia|]. discriminate.
+  - repeat split; auto.
+    + rewrite <- skipn_skipn'. destruct (firstn_firstn' k cap R) as [j ->]. apply firstn_skipn_len.
+    + intros H C Z. destruct (Hh H) as [_ NK]. destruct k; [congruence|].
+      destruct R as [|x t]; [reflexivity|]. destruct cap; [lia|]. discriminate.
+    + intros H. now apply Hh.
+    + intros Z. destruct (pending (sr (wsched w))); [|discriminate]. destruct (D eq_refl); discriminate.
+  - repeat split; auto. + intros H. now apply Hh.
+    + intros _. destruct (pending (sr (wsched w))); [destruct (D eq_refl); discriminate|cbn; lia].
+  - repeat split; auto. + intros H. now apply Hh. + discriminate.
+Qed.
+
+(* what has been read plus what is still ahead is the content from the start position: reads never lie *)
+Lemma fill_until_ok fuel cap need : forall got w got' w',
+  fill_until fuel cap need got w = (Ok got', w') ->
+  data (wdev w') = data (wdev w) /\
+  got' ++ skipn (pos (wdev w')) (data (wdev w')) = got ++ skipn (pos (wdev w)) (data (wdev w)) /\
+  (need <= length got')%nat /\
+  (honest (sr (wsched w)) -> honest (sr (wsched w'))).
+Proof.
+  induction fuel as [|f IH]; intros got w got' w' H; cbn [fill_until] in H;
+    destruct (need <=? length got)%nat eqn:C; try (apply Nat.leb_le in C; inversion H; subst; auto); try discriminate.
+  pose proof (dev_read_spec cap w) as S. destruct (dev_read cap w) as [[bs|[|]] w1].
+  - destruct S as (D & A & _ & Hh & _). destruct bs as [|x t]; [discriminate|].
+    apply IH in H. destruct H as (D2 & A2 & N & Hh2). repeat split; auto; try congruence.
+    rewrite A2, <- app_assoc, A. reflexivity.
+  - destruct S as (D & Hh & _). apply IH in H. destruct H as (D2 & A2 & N & Hh2). rewrite D in *. auto.
+  - discriminate.
+Qed.
+
+Lemma read_to_end_ok fuel cap : forall acc w acc' w', (0 < cap)%nat -> honest (sr (wsched w)) ->
+  read_to_end fuel cap acc w = (Ok acc', w') ->
+  data (wdev w') = data (wdev w) /\ acc' = acc ++ skipn (pos (wdev w)) (data (wdev w)).
+Proof.
+  induction fuel as [|f IH]; intros acc w acc' w' C Hh H; cbn [read_to_end] in H; [discriminate|].
+  pose proof (dev_read_spec cap w) as S. destruct (dev_read cap w) as [[bs|[|]] w1].
+  - destruct S as (D & A & Z & Hh1 & _). destruct bs as [|x t].
+    + inversion H; subst. split; auto. rewrite (Z Hh C eq_refl). now rewrite app_nil_r.
+    + apply IH in H; auto. destruct H as (D2 & A2). split; [congruence|]. rewrite A2, <- app_assoc, A. reflexivity.
+  - destruct S as (D & Hh1 & _). apply IH in H; auto. rewrite D in *. auto.
+  - discriminate.
+Qed.
+
+Lemma dev_seek_sr p w : sr (wsched (snd (dev_seek p w))) = sr (wsched w).
+Proof. unfold dev_seek. destruct (next (ss (wsched w))) as [f s']. destruct f; reflexivity. Qed.
+
+(* ================================================================ update_file over faulty devices *)
+Section UpdateIoProofs.
+  Variable payload : Type.
+  Variable psize : payload -> N.
+  Variable ser : payload -> list N.
+  Variable uclass : okind -> payload -> option N.
+  Variable read_blocks : list N -> res (blocklist payload * list N).
+  (* the reader consumes a prefix of what it is given *)
+  Hypothesis read_prefix : forall s bl rest, read_blocks s = Ok (bl, rest) -> exists m, s = m ++ rest.
+
+  Notation update_file_io := (update_file_io payload psize ser uclass read_blocks).
+  Notation update_file := (Update.update_file payload psize ser uclass read_blocks).
+
+  Lemma chunks_flushed cs : ends_flushed (map WWriteAll cs ++ [WFlush]) = true.
+  Proof. unfold ends_flushed. rewrite clean_after_app. reflexivity. Qed.
+
+  (* Whatever the fault schedules of the two devices, the chunking and the buffer capacity: if update_file
+     returns Ok(b), the two devices hold exactly what the fault-free function of Update.v computes
+     (whose correctness is C10), and that function returns Ok(b) too. *)
+  Theorem update_file_io_sound cap ck edit rb w1 w2 b w1' w2' :
+    (0 < cap)%nat -> ck_ok ck -> honest (sr (wsched w1)) ->
+    (pos (wdev w1) <= length (data (wdev w1)))%nat ->
+    wdev w2 = {| data := []; pos := 0 |} ->
+    update_file_io true cap ck edit rb w1 w2 = (Ok b, w1', w2') ->
+    update_file edit (pos (wdev w1)) (data (wdev w1)) =
+      ({| orig := data (wdev w1'); rebuilt := if b then Some (data (wdev w2')) else None |}, Ok b).
+  Proof.
+    intros C K Hh Hpos E2 H. unfold IoFault.update_file_io in H. unfold Update.update_file.
+    unfold dev_seek_cur in H.
+    pose proof (dev_seek_sr (pos (wdev w1)) w1) as SR.
+    destruct (dev_seek (pos (wdev w1)) w1) as [[start|i] w1a] eqn:S0; [|inversion H].
+    assert (L0 : lift (dev_seek (pos (wdev w1)) w1) = (Ok start, w1a)) by (rewrite S0; reflexivity).
+    assert (ST : start = pos (wdev w1)).
+    { clear - S0. unfold dev_seek in S0. destruct (next (ss (wsched w1))) as [f s']. destruct f; inversion S0; reflexivity. }
+    apply dev_seek_ok in L0. rewrite dev_eta in L0. cbn [snd] in SR. subst start.
+    rewrite L0 in H.
+    destruct (read_blocks (skipn (pos (wdev w1)) (data (wdev w1)))) as [[bl rest]|e|k] eqn:R; try (inversion H; fail).
+    set (s := skipn (pos (wdev w1)) (data (wdev w1))) in *.
+    set (need := (length s - length rest)%nat) in *.
+    destruct (fill_until (rfuel need w1a) cap need [] w1a) as [[got|e|k] w1b] eqn:F; try (inversion H; fail).
+    apply fill_until_ok in F. rewrite L0 in F. cbn [app] in F. fold s in F. destruct F as (D1 & A1 & N1 & Hh1).
+    rewrite SR in Hh1. specialize (Hh1 Hh).
+    destruct (edit bl) as [bl1|e|k]; try (inversion H; fail).
+    destruct (rmap lenN (write_blocks payload psize ser uclass bl1)) as [new_size|e|k]; try (inversion H; fail).
+    destruct (update_plan payload (N.of_nat need) new_size bl1) as [bl2|bl2].
+    - (* in place *)
+      destruct (write_blocks payload psize ser uclass bl2) as [bytes|e|k]; try (inversion H; fail).
+      destruct (dev_seek (pos (wdev w1)) w1b) as [[p|i] w1c] eqn:S1; [|inversion H].
+      assert (L1 : lift (dev_seek (pos (wdev w1)) w1b) = (Ok p, w1c)) by (rewrite S1; reflexivity).
+      apply dev_seek_ok in L1.
+      destruct (run_writer (SBuf cap) (map WWriteAll (ck bytes) ++ [WFlush]) w1c) as [r w1d] eqn:RW.
+      destruct r as [[]|e|k]; cbn [rmap bind] in H; inversion H; subst; clear H.
+      apply run_writer_ok_complete in RW; [|apply chunks_flushed].
+      rewrite ideal_app, ideal_write_all_chunks, K in RW. unfold ideal in RW. cbn [fold_left ideal_op] in RW.
+      rewrite RW, L1, D1. rewrite put_data_overwrite by exact Hpos. reflexivity.
+    - (* rebuilt *)
+      destruct (write_blocks payload psize ser uclass bl2) as [bytes|e|k]; try (inversion H; fail).
+      destruct (read_to_end (rfuel (length (data (wdev w1b))) w1b) cap (skipn need got) w1b) as [[tail|e|k] w1c] eqn:RE; try (inversion H; fail).
+      apply read_to_end_ok in RE; auto. destruct RE as (D2 & T).
+      destruct rb; [|inversion H].
+      destruct (run_writer SRaw [WWriteAll (bytes ++ tail)] w2) as [r w2a] eqn:RW.
+      destruct r as [[]|e|k]; cbn [rmap bind] in H; inversion H; subst; clear H.
+      apply run_writer_ok_complete in RW; [|reflexivity]. unfold ideal in RW. cbn [fold_left ideal_op] in RW.
+      assert (TR : skipn need got ++ skipn (pos (wdev w1b)) (data (wdev w1b)) = rest).
+      { destruct (read_prefix _ _ _ R) as (m & Em). fold s in Em.
+        assert (Lm : need = length m) by (unfold need; rewrite Em, app_length; lia).
+        rewrite <- (skipn_all2 got (n := need)) at 1 by lia.
+        assert (skipn need (got ++ skipn (pos (wdev w1b)) (data (wdev w1b))) = skipn need got ++ skipn (pos (wdev w1b)) (data (wdev w1b))) as <-.
+        { rewrite skipn_app. replace (need - length got)%nat with 0%nat by lia. reflexivity. }
+        rewrite A1, Em, Lm. rewrite skipn_app, skipn_all, Nat.sub_diag. reflexivity. }
+      rewrite TR in RW. rewrite RW, E2, D2, D1.
+      assert (DP : data (put (bytes ++ rest) {| data := []; pos := 0 |}) = bytes ++ rest).
+      { destruct (bytes ++ rest) as [|x t] eqn:EB; [reflexivity|]. unfold put. cbn. now rewrite app_nil_r. }
+      rewrite DP. reflexivity.
+  Qed.
+End UpdateIoProofs.
